@@ -4,7 +4,7 @@
    that fit in 256 bits (stage lemmas in props/PassesPacking.v once merged); the invariant through
    unification and abi_type_for is evaluated on the implementation's layouts (tools/p_c12.py): partial. *)
 From Coq Require Import String Permutation.
-From SLX Require Import Base gen.LayoutKey AbiT Layout proofs.LayoutProofs LayoutCases.
+From SLX Require Import Base gen.LayoutKey AbiT Layout proofs.LayoutProofs proofs.LayoutExtra LayoutCases.
 Open Scope N_scope.
 
 (* whatever entries are added, in whatever order: the layout is sorted by (slot index, bit offset) ... *)
@@ -19,6 +19,20 @@ Proof. exact layout_perm. Qed.
 Theorem C12_checker_decides_sorted : forall l, sorted_entries l = true <-> sorted_io l.
 Proof. exact sorted_entries_iff. Qed.
 
+(* the layout is canonical: it depends only on WHICH rows were added, not on the order of the `add` calls, whenever no two
+   different rows share one (slot index, bit offset) key; without that the stable sort keeps insertion order (witness) *)
+Theorem C12_layout_canonical : forall es es', Permutation es es' ->
+  (forall a b, In a es -> In b es -> fst a = fst b -> a = b) -> layout_of es = layout_of es'.
+Proof. exact layout_canonical_proof. Qed.
+
+Theorem C12_layout_of_sorted_id : forall es,
+  (forall a b, In a es -> In b es -> fst a = fst b -> a = b) -> layout_of (layout_of es) = layout_of es.
+Proof. exact layout_of_sorted_id_proof. Qed.
+
+Theorem C12_layout_canonical_needs_functional_keys_refuted :
+  exists es es', Permutation es es' /\ layout_of es <> layout_of es'.
+Proof. exact layout_canonical_needs_functional_keys_proof. Qed.
+
 Example C12_hyps_met :
   layout_of [(5, 8, AT "Bool" [] []); (2, 0, AT "Any" [] []); (5, 0, AT "Address" [] [])]
   = [(2, 0, AT "Any" [] []); (5, 0, AT "Address" [] []); (5, 8, AT "Bool" [] [])].
@@ -27,3 +41,6 @@ Proof. vm_compute. reflexivity. Qed.
 Print Assumptions C12_layout_sorted.
 Print Assumptions C12_layout_is_permutation.
 Print Assumptions C12_checker_decides_sorted.
+Print Assumptions C12_layout_canonical.
+Print Assumptions C12_layout_of_sorted_id.
+Print Assumptions C12_layout_canonical_needs_functional_keys_refuted.
